@@ -200,6 +200,17 @@ func init() {
 			{"- 100%d\n  - a%%b\n  - %s\n- {}\n  - %v%!\n", []string{"b"}},
 			{"- a\n- b\n- c\n", nil},
 		}
+		{
+			// per-root reports larger than an I/O buffer (4096 bytes)
+			big := ""
+			for r := 0; r < 2; r++ {
+				big += fmt.Sprintf("- big%d\n", r)
+				for i := 0; i < 48; i++ {
+					big += fmt.Sprintf("  - c%d-%03d-%s.go\n", r, i, strings.Repeat("x", 80))
+				}
+			}
+			docs = append(docs, dd{big, []string{".go"}})
+		}
 		var out []*Scenario
 		for di, x := range docs {
 			sp := model.ParseSpec(x.doc)
